@@ -985,4 +985,221 @@ theorem run_extLoop {fuel : Nat} : ∀ (l : List Ext) (n : Nat) (acc : ExtFields
       rfl
 
 
+/-! ## TBSCertificate, Certificate, `X509Cert::new` -/
+
+/-- the requirement checks on the position-free view -/
+def extCheckV (k : CertKind) (v : ExtView) : Option (List Nat × Option (List Nat)) :=
+  match v.bc, v.ku, v.skid with
+  | some (bcCrit, (ca, pl)), some (kuCrit, bits), some (_, skid) =>
+    if (k == .paa || v.akid.isSome) && extReqOk k bcCrit ca pl kuCrit bits then some (skid, v.akid.map (·.2)) else none
+  | _, _, _ => none
+
+theorem extCheck_view {k : CertKind} {f : ExtFields} {s : List Nat} {a : Option (List Nat)}
+    (h : extCheckV k f.view = some (s, a)) : ∃ e, extCheck k f = .ok e ∧ e.skid.1 = s ∧ e.akid.map (·.1) = a := by
+  obtain ⟨bc, ku, skid, akid⟩ := f
+  unfold extCheckV at h
+  unfold extCheck
+  simp only [ExtFields.view] at h ⊢
+  cases bc with
+  | none => simp at h
+  | some bcv =>
+    obtain ⟨bcCrit, ca, pl⟩ := bcv
+    cases ku with
+    | none => simp at h
+    | some kuv =>
+      obtain ⟨kuCrit, bits⟩ := kuv
+      cases skid with
+      | none => simp at h
+      | some sk =>
+        obtain ⟨sc, skb, sko⟩ := sk
+        simp only [Option.map_some, Option.isSome_map] at h ⊢
+        split at h
+        · rename_i hc
+          simp only [Option.some.injEq, Prod.mk.injEq] at h
+          obtain ⟨rfl, rfl⟩ := h
+          rw [if_pos hc]
+          refine ⟨_, rfl, rfl, ?_⟩
+          cases akid with
+          | none => rfl
+          | some x => rfl
+        · simp at h
+
+/-- what the accessors of a parsed certificate return, without the positions of the slices -/
+structure CertView where
+  skid : List Nat
+  akid : Option (List Nat)
+  pk : List Nat
+  vid : Option Nat
+  pid : Option Nat
+  notBefore : DateTime
+  notAfter : DateTime
+deriving DecidableEq
+
+def Cert.view (c : Cert) : CertView :=
+  { skid := c.skid.1, akid := c.akid.map (·.1), pk := c.pk.1, vid := c.vid, pid := c.pid,
+    notBefore := c.notBefore, notAfter := c.notAfter }
+
+def CertSpec.extView (c : CertSpec) : ExtView :=
+  c.exts.foldl Ext.apply { bc := none, ku := none, skid := none, akid := none }
+
+/-- the encoder's inputs are well-formed: readable attributes, calendar dates, an uncompressed P-256 point, extension
+values the reader can walk -/
+structure CertSpec.WF (c : CertSpec) : Prop where
+  issuer : ∀ a ∈ c.issuer, a.WF
+  subject : ∀ a ∈ c.subject, a.WF
+  nb : c.notBefore.Valid
+  na : c.notAfter.Valid
+  pkLen : c.pk.length = P256_PUBLIC_KEY_LEN
+  pkHead : c.pk.head? = some 0x04
+  exts : ∀ e ∈ c.exts, e.WF
+
+theorem run_extensions {k : CertKind} {fuel : Nat} {l : List Ext} {s : List Nat} {a : Option (List Nat)}
+    (hwf : ∀ e ∈ l, e.WF) (hn : l.length < fuel + 1)
+    (hc : extCheckV k (l.foldl Ext.apply { bc := none, ku := none, skid := none, akid := none }) = some (s, a)) :
+    Run (dExtensions k (fuel + 1)) (encTlv TAG_SEQUENCE (encExts l))
+      (fun e => e.skid.1 = s ∧ e.akid.map (·.1) = a) [] := by
+  unfold dExtensions
+  refine Run.of_append_nil ?_
+  refine Run.bind (run_headerOf tagOfByte_seq) (fun n hnn => ?_)
+  subst hnn
+  refine run_nested rfl ?_
+  refine Run.bind (run_extLoop (fuel := fuel) l (fuel + 1) ExtFields.empty hwf hn) (fun f hf => ?_)
+  have hv : f.view = l.foldl Ext.apply { bc := none, ku := none, skid := none, akid := none } := hf
+  rw [← hv] at hc
+  obtain ⟨e, he, h1, h2⟩ := extCheck_view hc
+  exact Run.lift he ⟨h1, h2⟩
+
+theorem tagOfByte_a3 : tagOfByte 0xA3 = .ok 0xA3 := by simp [tagOfByte]
+
+theorem run_tbs {k : CertKind} {fuel : Nat} {c : CertSpec} {rest : List Nat} {idn sdn : DnAttrs} {s : List Nat}
+    {a : Option (List Nat)} (hwf : c.WF)
+    (hi : dnFold c.issuer { vid := none, pid := none } = some idn)
+    (hs : dnFold c.subject { vid := none, pid := none } = some sdn)
+    (hext : extCheckV k c.extView = some (s, a))
+    (hval : validateIssuerSubject k idn sdn (encRdns c.issuer) (encRdns c.subject) = .ok ())
+    (hfi : c.issuer.length < fuel + 2) (hfs : c.subject.length < fuel + 2) (hfe : c.exts.length < fuel + 2) :
+    Run (dTbs k (fuel + 2)) (encTbs c ++ rest)
+      (fun cert => cert.view = { skid := s, akid := a, pk := c.pk, vid := sdn.vid, pid := sdn.pid,
+                                 notBefore := c.notBefore.dt, notAfter := c.notAfter.dt }) rest := by
+  unfold dTbs encTbs
+  refine Run.bind (run_headerOf tagOfByte_seq) (fun n hn => ?_)
+  subst hn
+  refine run_nested rfl ?_
+  simp only [List.append_assoc]
+  -- version
+  have hver : Run (ctxExplicit dUintRef) (encTlv 0xA0 (encTlv TAG_INTEGER [2]) ++ (encTlv TAG_INTEGER c.serial ++
+      (encAlgId OID_ECDSA_WITH_SHA256 ++ (encName c.issuer ++ (encTlv TAG_SEQUENCE (encTime c.notBefore ++ encTime c.notAfter) ++
+      (encName c.subject ++ (encSpki c.pk ++ encTlv 0xA3 (encTlv TAG_SEQUENCE (encExts c.exts)))))))))
+      (fun y => y = [2]) _ :=
+    run_ctxExplicit tagOfByte_a0 (by decide) (by decide) (Run.of_append_nil (run_uintRef_small (by omega)))
+  refine Run.bind (run_ctxWith_hit (t := 0xA0) (by simp [encTlv]) tagOfByte_a0 (by decide) (by decide) hver) (fun o ho => ?_)
+  obtain ⟨ver, rfl, rfl⟩ := ho
+  simp only [ne_eq, not_true_eq_false, if_false]
+  refine Run.bind (run_any tagOfByte_int) (fun serial _ => ?_)
+  refine Run.bind (run_algId oidValid_consts.2.2.1) (fun x hx => ?_)
+  subst hx
+  simp only [ne_eq, not_true_eq_false, if_false]
+  refine Run.bind (run_name hwf.issuer hi hfi) (fun x hx => ?_)
+  subst hx
+  simp only
+  refine Run.bind (run_validity hwf.nb hwf.na) (fun x hx => ?_)
+  subst hx
+  simp only
+  refine Run.bind (run_name hwf.subject hs hfs) (fun x hx => ?_)
+  subst hx
+  simp only
+  refine Run.bind (run_spki hwf.pkLen hwf.pkHead) (fun x hx => ?_)
+  obtain ⟨params, key⟩ := x
+  simp only at hx
+  obtain ⟨hp, hkb, hku⟩ := hx
+  subst hp
+  simp only [hkb, hwf.pkLen, ne_eq, not_true_eq_false, if_false]
+  have hoid : oidOfAny (TAG_OID, OID_PRIME256V1) = .ok OID_PRIME256V1 := by
+    simp [oidOfAny, oidValid_consts.2.1]
+  simp only [hoid, ne_eq, not_true_eq_false, if_false]
+  -- extensions
+  have hexts : Run (ctxExplicit (dExtensions k (fuel + 2))) (encTlv 0xA3 (encTlv TAG_SEQUENCE (encExts c.exts)))
+      (fun e => e.skid.1 = s ∧ e.akid.map (·.1) = a) [] :=
+    Run.of_append_nil (run_ctxExplicit tagOfByte_a3 (by decide) (by decide)
+      (run_extensions (fuel := fuel + 1) hwf.exts hfe hext))
+  refine Run.bind (run_ctxWith_hit (t := 0xA3) (by simp [encTlv]) tagOfByte_a3 (by decide) (by decide) hexts) (fun o ho => ?_)
+  obtain ⟨exts, rfl, he1, he2⟩ := ho
+  simp only
+  refine Run.bind (Run.lift hval rfl) (fun _ _ => ?_)
+  refine Run.pure ?_
+  simp only [Cert.view, he1, he2, hkb]
+
+theorem run_certificate {k : CertKind} {fuel : Nat} {c : CertSpec} {idn sdn : DnAttrs} {s : List Nat}
+    {a : Option (List Nat)} (hwf : c.WF)
+    (hi : dnFold c.issuer { vid := none, pid := none } = some idn)
+    (hs : dnFold c.subject { vid := none, pid := none } = some sdn)
+    (hext : extCheckV k c.extView = some (s, a))
+    (hval : validateIssuerSubject k idn sdn (encRdns c.issuer) (encRdns c.subject) = .ok ())
+    (hfi : c.issuer.length < fuel + 2) (hfs : c.subject.length < fuel + 2) (hfe : c.exts.length < fuel + 2) :
+    Run (dCertificate k (fuel + 2)) (encCert c)
+      (fun cert => cert.view = { skid := s, akid := a, pk := c.pk, vid := sdn.vid, pid := sdn.pid,
+                                 notBefore := c.notBefore.dt, notAfter := c.notAfter.dt }) [] := by
+  unfold dCertificate encCert
+  refine Run.of_append_nil ?_
+  refine Run.bind (run_headerOf tagOfByte_seq) (fun n hn => ?_)
+  subst hn
+  refine run_nested rfl ?_
+  simp only [List.append_assoc]
+  refine Run.bind (run_tbs hwf hi hs hext hval hfi hfs hfe) (fun tbs htbs => ?_)
+  refine Run.bind (run_algId oidValid_consts.2.2.1) (fun _ _ => ?_)
+  have hsig := run_bitString (unused := 0) (bytes := c.signature) (rest := []) (by omega) (fun h => absurd rfl h)
+  simp only [List.append_nil] at hsig
+  refine Run.bind hsig (fun _ _ => ?_)
+  exact Run.pure htbs
+
+theorem encRdns_length_ge : ∀ attrs : List Attr, attrs.length ≤ (encRdns attrs).length
+  | [] => Nat.zero_le _
+  | a :: rest => by
+    rw [encRdns_cons]
+    have := encRdns_length_ge rest
+    simp only [List.length_cons, List.length_append, encRdn, encTlv]
+    omega
+
+theorem encExts_length_ge : ∀ l : List Ext, l.length ≤ (encExts l).length
+  | [] => Nat.zero_le _
+  | e :: rest => by
+    rw [encExts_cons, encExt_eq]
+    have := encExts_length_ge rest
+    simp only [List.length_cons, List.length_append, encExtension, encTlv]
+    omega
+
+theorem encCert_sizes (c : CertSpec) :
+    c.issuer.length < (encCert c).length ∧ c.subject.length < (encCert c).length ∧ c.exts.length < (encCert c).length := by
+  have h1 := encRdns_length_ge c.issuer
+  have h2 := encRdns_length_ge c.subject
+  have h3 := encExts_length_ge c.exts
+  simp only [encCert, encTbs, encName, List.length_append, encTlv_length]
+  omega
+
+/-- **X.509 round trip**: `X509Cert::new` of the certificate the model encoder writes for well-formed fields that
+satisfy the profile of the certificate type returns — through its accessors — the subject key identifier, the
+authority key identifier (when present), the public key, the Matter vendor / product id of the subject and the
+validity instants that were written. Extensions may come in any order, unknown non-critical ones are skipped, the last
+occurrence of a known extension or of a Matter attribute counts. -/
+theorem x509New_encCert (k : CertKind) (c : CertSpec) (idn sdn : DnAttrs) (s : List Nat) (a : Option (List Nat))
+    (hwf : c.WF)
+    (hi : dnFold c.issuer { vid := none, pid := none } = some idn)
+    (hs : dnFold c.subject { vid := none, pid := none } = some sdn)
+    (hext : extCheckV k c.extView = some (s, a))
+    (hval : validateIssuerSubject k idn sdn (encRdns c.issuer) (encRdns c.subject) = .ok ())
+    (hlen : (encCert c).length ≤ MAX_LEN) :
+    ∃ cert, x509New k (encCert c) = .ok cert ∧
+      cert.view = { skid := s, akid := a, pk := c.pk, vid := sdn.vid, pid := sdn.pid,
+                    notBefore := c.notBefore.dt, notAfter := c.notAfter.dt } := by
+  obtain ⟨z1, z2, z3⟩ := encCert_sizes c
+  have hpos : 1 ≤ (encCert c).length := by omega
+  have hfuel : (encCert c).length + 1 = ((encCert c).length - 1) + 2 := by omega
+  have hrun := run_certificate (k := k) (fuel := (encCert c).length - 1) hwf hi hs hext hval (by omega) (by omega) (by omega)
+  obtain ⟨cert, hv, hder⟩ := fromDer_of_run hrun hlen
+  refine ⟨cert, ?_, hv⟩
+  unfold x509New
+  rw [hfuel, hder]
+  rfl
+
+
 end Codec.DerRd
